@@ -38,6 +38,7 @@ class Emitter:
         self.enum_values = enum_values or {}
         self.out_types = {}
         self.stmt_call_handler = None
+        self.method_handler = None
 
     # ---- helpers
     def lit(self, text, want):
@@ -216,6 +217,10 @@ class Emitter:
         f, args, targs = a[1], a[2], a[3]
         if f[0] == 'mem':
             obj, name = f[1], f[2]
+            if self.method_handler is not None:
+                r = self.method_handler(obj, name, args, self)
+                if r is not None:
+                    return r
             # Eigen methods on a vector expression
             if name in ('array', 'matrix', 'eval', 'transpose', 'reshaped'):
                 return self.expr(obj)
